@@ -104,6 +104,7 @@ def run(vc):
     from contracts import C04_shunt
     C04_shunt.run(vc)
     run_update_q(vc)
+    run_dispatch_qlims(vc)
 
     if not hasattr(vc, "native_standins"):
         vc.native_standins = []
@@ -111,7 +112,22 @@ def run(vc):
         name="setpoints and q-limit enforcement on fixed power flows",
         bound="6 power flows of two fixed networks (meshed 20 kV net with ZIP load, shunt, storage, sgen, two gens; 110 kV chain whose q limits "
               "become binding in two successive rounds) with / without angles, voltage dependent loads, enforce_q_lims",
-        script="from replaylib.setpoints import main\nmain()\n"))
+        script="import sys\nfrom replaylib.setpoints import main, main_reference_buses_only\n"
+               "for f in (main, main_reference_buses_only):\n    try:\n        f()\n    except SystemExit as e:\n        if e.code:\n            raise\n",
+        known={"C04/enforce_q_lims-ignored-in-networks-of-reference-buses-without-branches":
+               r"REPRODUCED: one bus with ext_grid, gen and load, algorithm=(nr|iwamoto_nr): gen 0 q = 30\.0000 Mvar outside"}))
+
+
+F_QLIM_NO_BRANCH = "C04/enforce_q_lims-ignored-in-networks-of-reference-buses-without-branches"
+KNOWN_EXCLUSIONS = {F_QLIM_NO_BRANCH: lambda ob: True if ob.meta.get("finding") == F_QLIM_NO_BRANCH else None}
+
+
+def run_dispatch_qlims(vc):
+    """_run_pf_algorithm: the shortcut for networks of reference buses only (_bypass_pf_and_set_results) never runs the reactive limit
+    loop; a gen at a reference bus is limited as well, so with enforce_q_lims the Newton-Raphson path (which contains the loop) must run."""
+    from contracts import C10
+    C10.run_dispatch(vc, options={"distributed_slack": False, "enforce_q_lims": True}, label="with enforce_q_lims", part="dispatch-qlims",
+                     tag="enforce_q_lims", no_branch_finding=F_QLIM_NO_BRANCH)
 
 
 def run_update_q(vc):
@@ -153,6 +169,9 @@ def classify(ob, model):
 
 
 def replay(ob, model, finding=None):
+    if ob.meta.get("part") == "dispatch-qlims":
+        return {"script": f"# replay of {ob.id}\nfrom replaylib.setpoints import main_reference_buses_only\nmain_reference_buses_only()\n",
+                "description": "runpp(enforce_q_lims=True) on networks in which every bus carries an ext_grid: gens with reactive limits at them"}
     if ob.meta.get("part") == "update_q":
         return {"script": f"# replay of {ob.id}\nfrom replaylib.setpoints import main\nmain()\n",
                 "description": "power flows with enforce_q_lims whose limits become binding in successive rounds: reported q against what the "
